@@ -233,7 +233,7 @@ impl Loop3D {
     pub fn sanitize(self) -> Result<Self, String> {
         let mut new = Self::with_capacity(self.len());
         for v in self.vertices.iter() {
-            new.push(*v).unwrap();
+            new.push(*v)?;
         }
         if self.closed && new.vertices.len() >= 3 {
             new.close()?
